@@ -1,0 +1,291 @@
+//go:build verif
+// +build verif
+
+package fragmentation
+
+import "bytes"
+
+// Client lemmas for /verif (tool: gov), property C18; never called by library code.
+// Each lemma is verified with the real encoder / decoder bodies inlined: for EVERY value whose
+// fields lie within the bit widths of the package specification the encoder accepts it without
+// panicking, produces exactly Size() bytes, and the decoder returns an equal value.
+func verifAssert(cond bool, label string) {}
+func verifAssume(cond bool)               {}
+
+func lemmaC18_roundtrip_PackageVersionAnsPayload(v PackageVersionAnsPayload) {
+	b, err := v.MarshalBinary()
+	verifAssert(err == nil, "accepted")
+	if err != nil {
+		return
+	}
+	verifAssert(len(b) == v.Size(), "size")
+	var w PackageVersionAnsPayload
+	err2 := w.UnmarshalBinary(b)
+	verifAssert(err2 == nil, "decodes")
+	verifAssert(w == v, "equal")
+}
+
+func lemmaC18_roundtrip_FragSessionSetupReqPayload(v FragSessionSetupReqPayload) {
+	verifAssume(v.FragSession.FragIndex <= 3 && v.Control.BlockAckDelay <= 7 && v.Control.FragmentationMatrix <= 7)
+	b, err := v.MarshalBinary()
+	verifAssert(err == nil, "accepted")
+	if err != nil {
+		return
+	}
+	verifAssert(len(b) == v.Size(), "size")
+	var w FragSessionSetupReqPayload
+	err2 := w.UnmarshalBinary(b)
+	verifAssert(err2 == nil, "decodes")
+	verifAssert(w == v, "equal")
+}
+
+func lemmaC18_roundtrip_FragSessionSetupAnsPayload(v FragSessionSetupAnsPayload) {
+	verifAssume(v.StatusBitMask.FragIndex <= 3)
+	b, err := v.MarshalBinary()
+	verifAssert(err == nil, "accepted")
+	if err != nil {
+		return
+	}
+	verifAssert(len(b) == v.Size(), "size")
+	var w FragSessionSetupAnsPayload
+	err2 := w.UnmarshalBinary(b)
+	verifAssert(err2 == nil, "decodes")
+	verifAssert(w == v, "equal")
+}
+
+func lemmaC18_roundtrip_FragSessionDeleteReqPayload(v FragSessionDeleteReqPayload) {
+	verifAssume(v.Param.FragIndex <= 3)
+	b, err := v.MarshalBinary()
+	verifAssert(err == nil, "accepted")
+	if err != nil {
+		return
+	}
+	verifAssert(len(b) == v.Size(), "size")
+	var w FragSessionDeleteReqPayload
+	err2 := w.UnmarshalBinary(b)
+	verifAssert(err2 == nil, "decodes")
+	verifAssert(w == v, "equal")
+}
+
+func lemmaC18_roundtrip_FragSessionDeleteAnsPayload(v FragSessionDeleteAnsPayload) {
+	verifAssume(v.Status.FragIndex <= 3)
+	b, err := v.MarshalBinary()
+	verifAssert(err == nil, "accepted")
+	if err != nil {
+		return
+	}
+	verifAssert(len(b) == v.Size(), "size")
+	var w FragSessionDeleteAnsPayload
+	err2 := w.UnmarshalBinary(b)
+	verifAssert(err2 == nil, "decodes")
+	verifAssert(w == v, "equal")
+}
+
+func lemmaC18_roundtrip_FragSessionStatusReqPayload(v FragSessionStatusReqPayload) {
+	verifAssume(v.FragStatusReqParam.FragIndex <= 3)
+	b, err := v.MarshalBinary()
+	verifAssert(err == nil, "accepted")
+	if err != nil {
+		return
+	}
+	verifAssert(len(b) == v.Size(), "size")
+	var w FragSessionStatusReqPayload
+	err2 := w.UnmarshalBinary(b)
+	verifAssert(err2 == nil, "decodes")
+	verifAssert(w == v, "equal")
+}
+
+func lemmaC18_roundtrip_FragSessionStatusAnsPayload(v FragSessionStatusAnsPayload) {
+	verifAssume(v.ReceivedAndIndex.FragIndex <= 3 && v.ReceivedAndIndex.NbFragReceived <= 0x3fff)
+	b, err := v.MarshalBinary()
+	verifAssert(err == nil, "accepted")
+	if err != nil {
+		return
+	}
+	verifAssert(len(b) == v.Size(), "size")
+	var w FragSessionStatusAnsPayload
+	err2 := w.UnmarshalBinary(b)
+	verifAssert(err2 == nil, "decodes")
+	verifAssert(w == v, "equal")
+}
+
+// DataFragment: FragIndex (2 bits), N (14 bits), payload bytes
+func lemmaC18_roundtrip_DataFragmentPayload(v DataFragmentPayload) {
+	verifAssume(v.IndexAndN.FragIndex <= 3 && v.IndexAndN.N <= 0x3fff)
+	b, err := v.MarshalBinary()
+	verifAssert(err == nil, "accepted")
+	if err != nil {
+		return
+	}
+	verifAssert(len(b) == v.Size(), "size")
+	var w DataFragmentPayload
+	err2 := w.UnmarshalBinary(b)
+	verifAssert(err2 == nil, "decodes")
+	verifAssert(w.IndexAndN == v.IndexAndN, "equal-header")
+	verifAssert(bytes.Equal(w.Payload, v.Payload), "equal-payload")
+}
+
+// ---------------------------------------------------------------------------
+// Command streams (bounded: sequences of length 2): a command carrying a payload followed by a
+// command without payload in that direction decodes to exactly these two commands.
+// ---------------------------------------------------------------------------
+
+func lemmaC18_stream_PackageVersionAnsPayload(v PackageVersionAnsPayload) {
+	cmds := Commands{{CID: PackageVersionAns, Payload: &v}, {CID: CID(0x08)}}
+	b, err := cmds.MarshalBinary()
+	verifAssert(err == nil, "accepted")
+	if err != nil {
+		return
+	}
+	var out Commands
+	err2 := out.UnmarshalBinary(true, b)
+	verifAssert(err2 == nil, "decodes")
+	if err2 != nil {
+		return
+	}
+	verifAssert(len(out) == 2, "count")
+	if len(out) != 2 {
+		return
+	}
+	verifAssert(out[0].CID == PackageVersionAns && out[1].CID == CID(0x08) && out[1].Payload == nil, "framing")
+	w, ok := out[0].Payload.(*PackageVersionAnsPayload)
+	verifAssert(ok && *w == v, "first")
+}
+
+func lemmaC18_stream_FragSessionSetupReqPayload(v FragSessionSetupReqPayload) {
+	verifAssume(v.FragSession.FragIndex <= 3 && v.Control.BlockAckDelay <= 7 && v.Control.FragmentationMatrix <= 7)
+	cmds := Commands{{CID: FragSessionSetupReq, Payload: &v}, {CID: PackageVersionReq}}
+	b, err := cmds.MarshalBinary()
+	verifAssert(err == nil, "accepted")
+	if err != nil {
+		return
+	}
+	var out Commands
+	err2 := out.UnmarshalBinary(false, b)
+	verifAssert(err2 == nil, "decodes")
+	if err2 != nil {
+		return
+	}
+	verifAssert(len(out) == 2, "count")
+	if len(out) != 2 {
+		return
+	}
+	verifAssert(out[0].CID == FragSessionSetupReq && out[1].CID == PackageVersionReq && out[1].Payload == nil, "framing")
+	w, ok := out[0].Payload.(*FragSessionSetupReqPayload)
+	verifAssert(ok && *w == v, "first")
+}
+
+func lemmaC18_stream_FragSessionSetupAnsPayload(v FragSessionSetupAnsPayload) {
+	verifAssume(v.StatusBitMask.FragIndex <= 3)
+	cmds := Commands{{CID: FragSessionSetupAns, Payload: &v}, {CID: CID(0x08)}}
+	b, err := cmds.MarshalBinary()
+	verifAssert(err == nil, "accepted")
+	if err != nil {
+		return
+	}
+	var out Commands
+	err2 := out.UnmarshalBinary(true, b)
+	verifAssert(err2 == nil, "decodes")
+	if err2 != nil {
+		return
+	}
+	verifAssert(len(out) == 2, "count")
+	if len(out) != 2 {
+		return
+	}
+	verifAssert(out[0].CID == FragSessionSetupAns && out[1].CID == CID(0x08) && out[1].Payload == nil, "framing")
+	w, ok := out[0].Payload.(*FragSessionSetupAnsPayload)
+	verifAssert(ok && *w == v, "first")
+}
+
+func lemmaC18_stream_FragSessionDeleteReqPayload(v FragSessionDeleteReqPayload) {
+	verifAssume(v.Param.FragIndex <= 3)
+	cmds := Commands{{CID: FragSessionDeleteReq, Payload: &v}, {CID: PackageVersionReq}}
+	b, err := cmds.MarshalBinary()
+	verifAssert(err == nil, "accepted")
+	if err != nil {
+		return
+	}
+	var out Commands
+	err2 := out.UnmarshalBinary(false, b)
+	verifAssert(err2 == nil, "decodes")
+	if err2 != nil {
+		return
+	}
+	verifAssert(len(out) == 2, "count")
+	if len(out) != 2 {
+		return
+	}
+	verifAssert(out[0].CID == FragSessionDeleteReq && out[1].CID == PackageVersionReq && out[1].Payload == nil, "framing")
+	w, ok := out[0].Payload.(*FragSessionDeleteReqPayload)
+	verifAssert(ok && *w == v, "first")
+}
+
+func lemmaC18_stream_FragSessionDeleteAnsPayload(v FragSessionDeleteAnsPayload) {
+	verifAssume(v.Status.FragIndex <= 3)
+	cmds := Commands{{CID: FragSessionDeleteAns, Payload: &v}, {CID: CID(0x08)}}
+	b, err := cmds.MarshalBinary()
+	verifAssert(err == nil, "accepted")
+	if err != nil {
+		return
+	}
+	var out Commands
+	err2 := out.UnmarshalBinary(true, b)
+	verifAssert(err2 == nil, "decodes")
+	if err2 != nil {
+		return
+	}
+	verifAssert(len(out) == 2, "count")
+	if len(out) != 2 {
+		return
+	}
+	verifAssert(out[0].CID == FragSessionDeleteAns && out[1].CID == CID(0x08) && out[1].Payload == nil, "framing")
+	w, ok := out[0].Payload.(*FragSessionDeleteAnsPayload)
+	verifAssert(ok && *w == v, "first")
+}
+
+func lemmaC18_stream_FragSessionStatusReqPayload(v FragSessionStatusReqPayload) {
+	verifAssume(v.FragStatusReqParam.FragIndex <= 3)
+	cmds := Commands{{CID: FragSessionStatusReq, Payload: &v}, {CID: PackageVersionReq}}
+	b, err := cmds.MarshalBinary()
+	verifAssert(err == nil, "accepted")
+	if err != nil {
+		return
+	}
+	var out Commands
+	err2 := out.UnmarshalBinary(false, b)
+	verifAssert(err2 == nil, "decodes")
+	if err2 != nil {
+		return
+	}
+	verifAssert(len(out) == 2, "count")
+	if len(out) != 2 {
+		return
+	}
+	verifAssert(out[0].CID == FragSessionStatusReq && out[1].CID == PackageVersionReq && out[1].Payload == nil, "framing")
+	w, ok := out[0].Payload.(*FragSessionStatusReqPayload)
+	verifAssert(ok && *w == v, "first")
+}
+
+func lemmaC18_stream_FragSessionStatusAnsPayload(v FragSessionStatusAnsPayload) {
+	verifAssume(v.ReceivedAndIndex.FragIndex <= 3 && v.ReceivedAndIndex.NbFragReceived <= 0x3fff)
+	cmds := Commands{{CID: FragSessionStatusAns, Payload: &v}, {CID: CID(0x08)}}
+	b, err := cmds.MarshalBinary()
+	verifAssert(err == nil, "accepted")
+	if err != nil {
+		return
+	}
+	var out Commands
+	err2 := out.UnmarshalBinary(true, b)
+	verifAssert(err2 == nil, "decodes")
+	if err2 != nil {
+		return
+	}
+	verifAssert(len(out) == 2, "count")
+	if len(out) != 2 {
+		return
+	}
+	verifAssert(out[0].CID == FragSessionStatusAns && out[1].CID == CID(0x08) && out[1].Payload == nil, "framing")
+	w, ok := out[0].Payload.(*FragSessionStatusAnsPayload)
+	verifAssert(ok && *w == v, "first")
+}
